@@ -14,7 +14,6 @@ CHECKS = {
         "finite and enumerated completely, hence proof-level for the stated clauses.",
    note="Trusted: clang constant evaluator, the embedded CODATA-2018/IUPAC reference tables. Not decided: uses of the "
         "constants at call sites other than through these tables (covered for the trajectory formats by C08)."),
-}
  "C13": dict(cat="proof", ref="DESIGN.md section 4 C13",
    technique="interval abstract interpretation with a symbolic bin count over the clang CFG (widening/narrowing, branch refinement) + canonical-form comparison of the binning/normalisation expressions",
    text="Every subscript of the bin arrays in HistogramNew::Process and Histogram::ProcessData is proved to lie in [0,N-1] "
